@@ -53,9 +53,38 @@ type StopCase struct {
 	// returned, the harness waits until it has before it calls Error(): an expired context of the caller does not
 	// change why the stream ended
 	LateDeadlineMs int `json:",omitempty"`
+	// CustomCtx: the caller's context is of a type of the caller's own (its own Done channel), not one of the
+	// standard library's: deriving from it costs the standard library a watcher goroutine, which has to go
+	// away with the derived context
+	CustomCtx bool `json:",omitempty"`
 	// Chop != 0: the master's bytes arrive in pieces (see fakemaster.ConnPlan.Chop)
 	Chop uint32 `json:",omitempty"`
 }
+
+// ownCtx is a context type of the caller's own: it has its own Done channel (closed when the wrapped
+// context ends) and hides the wrapped context's identity from context.WithCancel.
+type ownCtx struct {
+	inner context.Context
+	done  chan struct{}
+}
+
+func newOwnCtx(inner context.Context) *ownCtx {
+	c := &ownCtx{inner: inner, done: make(chan struct{})}
+	go func() { <-inner.Done(); close(c.done) }()
+	return c
+}
+
+func (c *ownCtx) Deadline() (time.Time, bool) { return c.inner.Deadline() }
+func (c *ownCtx) Done() <-chan struct{}       { return c.done }
+func (c *ownCtx) Err() error {
+	select {
+	case <-c.done:
+		return c.inner.Err()
+	default:
+		return nil
+	}
+}
+func (c *ownCtx) Value(key interface{}) interface{} { return nil }
 
 // StopObs is everything observed.
 type StopObs struct {
@@ -276,6 +305,9 @@ func runStop(c *StopCase) *StopObs {
 	}
 	defer cleanup()
 	at.ctx = ctx
+	if c.CustomCtx {
+		at.ctx = newOwnCtx(ctx)
+	}
 	at.plan = plan
 	if at.plan.Gate == nil {
 		at.plan.Gate = func(i int, s *fakemaster.Step) bool {
@@ -507,7 +539,7 @@ func runStop(c *StopCase) *StopObs {
 	}
 
 	// no library goroutine may remain
-	left := sched.WaitNoLib(st.baseline, stopBound)
+	left := sched.WaitNoLib(st.baseline, stopBound, int(st.streamGID.Load()))
 	if len(left) > 0 {
 		proven := true
 		var desc []string
